@@ -126,6 +126,9 @@ structure VS where
   del : Nat → Option Nat := fun _ => none        -- delegator ↦ shares (Dec)
   sinfo : Nat → Option SInfo := fun _ => none    -- delegator ↦ starting info
   slashes : List SlashEv := []
+  bonded : Bool := true        -- validator status Bonded (false: Unbonding, it left the active set)
+  ubHeight : Nat := 0          -- UnbondingHeight (set when the validator leaves the active set)
+  jailed : Bool := false
   -- ghost totals (never read by the code paths)
   allocated : Nat := 0         -- Σ tokens ever allocated to this validator (Dec)
   paid : Nat := 0              -- Σ whole coins paid to delegators
@@ -343,6 +346,17 @@ def VS.slash (v : VS) (h power factor : Nat) : VS :=
   let hooked := v.slashHook h eff
   { hooked with tokens := hooked.tokens - burn }
 
+/-- `ApplyAndReturnValidatorSetUpdates` for one validator at height `h` (fewer validators than MaxValidators): it is
+in the active set iff it is not jailed and has consensus power ≥ 1 (tokens ≥ PowerReduction); leaving the set starts
+the unbonding period (status Unbonding, UnbondingHeight = h), re-entering makes it Bonded again.  A status change
+touches neither delegations nor distribution records (the distribution hooks of AfterValidatorBeginUnbonding /
+AfterValidatorBonded are empty) -/
+def VS.endBlock (v : VS) (h : Nat) : VS :=
+  let active := !v.jailed && decide (POWER_REDUCTION ≤ v.tokens)
+  if v.bonded && !active then { v with bonded := false, ubHeight := h }
+  else if !v.bonded && active then { v with bonded := true }
+  else v
+
 def cmpShares (name : String) (a b : Nat) : Bool :=
   if name == "LT" then decide (a < b)
   else if name == "LTE" then decide (a ≤ b)
@@ -423,6 +437,15 @@ def evalPE (l : Loc) : PE → Except Err Nat
   | .curMinus k => .ok (l.curPeriod - k)
   | .unknown _ => .error .unsupported
 
+def evalCond (e : Env) (l : Loc) : Cond → Except Err Bool
+  | .lookupErr => .ok l.lookupErr
+  | .flag => .ok l.flag
+  | .notFlag => .ok (!l.flag)
+  | .isBonded => .ok e.v0.bonded
+  | .notBonded => .ok (!e.v0.bonded)
+  | .isZero ex => match evalSE e l ex with | .ok n => .ok (n == 0) | .error z => .error z
+  | .unknown _ => .error .unsupported
+
 def execSimple (e : Env) (l : Loc) : Simple → Except Err Loc
   | .withdraw p =>
     match l.vs.withdrawMsg e.h (e.addr p) with
@@ -465,18 +488,16 @@ def execSimple (e : Env) (l : Loc) : Simple → Except Err Loc
     | .ok n => match l.vs.incRef n with | .ok v => .ok { l with vs := v } | .error z => .error z
   | .deleteInfo p => .ok { l with vs := { l.vs with sinfo := setAt l.vs.sinfo (e.addr p) none } }
   | .writeInfo p src => .ok { l with vs := { l.vs with sinfo := setAt l.vs.sinfo (e.addr p) (some (l.info src)) } }
+  | .guarded c x =>
+    match evalCond e l c with
+    | .ok true => execSimple e l x
+    | .ok false => .ok l
+    | .error z => .error z
   | .unknown _ => .error .unsupported
 
 def execSimples (e : Env) : List Simple → Loc → Except Err Loc
   | [], l => .ok l
   | x :: xs, l => match execSimple e l x with | .ok l' => execSimples e xs l' | .error z => .error z
-
-def evalCond (e : Env) (l : Loc) : Cond → Except Err Bool
-  | .lookupErr => .ok l.lookupErr
-  | .flag => .ok l.flag
-  | .notFlag => .ok (!l.flag)
-  | .isZero ex => match evalSE e l ex with | .ok n => .ok (n == 0) | .error z => .error z
-  | .unknown _ => .error .unsupported
 
 def execStmt (e : Env) (l : Loc) : Stmt → Except Err Loc
   | .s x => execSimple e l x
@@ -536,6 +557,8 @@ inductive Op
   | alloc (v amt : Nat)
   | slash (v power factor : Nat)
   | block
+  | jail (v : Nat)      -- staking `Jail`: out of the power index; the status changes at the next validator-set update
+  | unjail (v : Nat)    -- staking `Unjail`
 deriving Repr, DecidableEq
 
 /-- genesis of one validator with self-delegation by account `op` (staking + distribution `InitGenesis` hooks):
@@ -583,6 +606,8 @@ def State.exec (c : Cfg) (s : State) : Op → Except Err State
       | .error e => .error e
       | .ok (v', _, r) =>
         let s1 := (s.setVS v v').addGain d r
+        -- `Undelegate` stamps the entry with the current height and time whatever the validator's status (only a
+        -- redelegation takes the source validator's UnbondingHeight, and redelegation entries never merge)
         .ok { s1 with ubd := if s1.ubd.contains (d, v, s.height) then s1.ubd else s1.ubd ++ [(d, v, s.height)] }
   | .redelegate d src dst amt =>
     if !(s.okAcc d && s.okVal src && s.okVal dst) || amt == 0 then .error .badArgs else
@@ -625,7 +650,14 @@ def State.exec (c : Cfg) (s : State) : Op → Except Err State
     if !(s.okVal v) then .error .badArgs else .ok (s.setVS v ((s.vs v).alloc amt))
   | .slash v power factor =>
     if !(s.okVal v) || decide (ONE < factor) then .error .badArgs else .ok (s.setVS v ((s.vs v).slash s.height power factor))
-  | .block => .ok { s with height := s.height + 1 }
+  -- end of block: the staking EndBlocker's validator-set update, then the next height
+  | .block => .ok { s with height := s.height + 1, vs := fun i => (s.vs i).endBlock s.height }
+  | .jail v =>
+    if !(s.okVal v) || (s.vs v).jailed then .error .badArgs
+    else .ok (s.setVS v { s.vs v with jailed := true })
+  | .unjail v =>
+    if !(s.okVal v) || !(s.vs v).jailed then .error .badArgs
+    else .ok (s.setVS v { s.vs v with jailed := false })
 
 /-- a failed transaction is reverted as a whole -/
 def State.step (c : Cfg) (s : State) (o : Op) : State :=
